@@ -162,6 +162,10 @@ def selector_records() -> list[dict[str, Any]]:
         dict(group='events.k8s.io', version='v1', plural='events', kind='Event', singular='event', shortcuts=['ev'], categories=[], preferred=True),
         dict(group='', version='v1', plural='pods', kind='Pod', singular='pod', shortcuts=['po'], categories=['all'], preferred=True),
     ]
+    # ... and the same kinds as the cluster describes them after their definitions were edited while the operator runs (a kind left its
+    # category, lost its shortcut, got another preferred version, joined a category): the criterion is about the resource as it is NOW
+    RES = RES + [dict(RES[0], categories=[], preferred=False), dict(RES[1], preferred=True, shortcuts=[]), dict(RES[2], categories=['catx'], shortcuts=['th']),
+                 dict(RES[3], categories=['all'], kind='Thing', singular='thing'), dict(RES[6], categories=[], shortcuts=['th'])]
     names = [('plural', 'things'), ('kind', 'Thing'), ('singular', 'thing'), ('shortcut', 'th'), ('category', 'catx'), ('category', 'all'),
              ('any', 'things'), ('any', 'Thing'), ('any', 'thing'), ('any', 'th'), ('any', 'catx'), ('any', 'pods'), ('any', 'events'),
              ('everything', ''), ('fn', 'true'), ('fn', 'plural')]
